@@ -794,6 +794,9 @@ static void run_late_register(void)
 	vrt_note_set(N_SYNC1, 1);
 	do_sync();
 	ST(y, 1);
+	/* the registry is only comparable with the harness's own book-keeping when nobody is inside a registration: the late thread
+	 * announces itself after it has registered AND noted it (the grace period above may have ended before it even started) */
+	vrt_await(reg2_pred, NULL);
 	check_registry("late_register (after the grace period during which the thread registered)");
 	vrt_note_set(N_GP1DONE, 1);
 	vrt_await(r2in_pred, NULL);
